@@ -158,9 +158,9 @@ Proof.
     (* the chain of the key *)
     assert (Hcur : forall a, last_opt (ktrace K tr) = Some a ->
               snd (dr_cursor rq) = nxt a /\
-              (stale (d_log d) (dr_cursor rq) = true -> is_res a = false -> snd (dr_cursor rq) <= base_of (d_log d))).
+              (stale (d_log d) (dr_cursor rq) = true -> snd (dr_cursor rq) <= base_of (d_log d))).
     { intros a Ha. destruct (D4 id o rq a Ho (or_intror (or_introl eq_refl)) Eg0 Ha) as [C1 C2].
-      split; [exact C1|]. intros Hs Hnr. now apply (C2 Hnr d Hd). }
+      split; [exact C1|]. intros Hs. now apply (C2 d Hd). }
     assert (HevE : forallb (fun a => negb (is_end a)) evK = true).
     { unfold evK. rewrite forallb_app. apply andb_true_iff. split.
       - destruct (stale (d_log d) (dr_cursor rq)); reflexivity.
@@ -193,7 +193,7 @@ Proof.
           rewrite Ho in Ho0. inversion Ho0; subst o0.
           assert (Hk : key_of o2 rq' = K) by (unfold key_of, K; now rewrite Hs, Ef, Ei).
           rewrite Hk, ktrace_all_same in Hl by exact HevE. specialize (Hlast _ Hl). split; [lia|].
-          intros _ d0 Hd0 Hs0. rewrite Ei, Hd in Hd0. inversion Hd0; subst d0. congruence. }
+          intros d0 Hd0 Hs0. rewrite Ei, Hd in Hd0. inversion Hd0; subst d0. congruence. }
       all: assert (Hh' : Held st1 c r \/ In (c, r) e) by auto;
            destruct (Hold _ _ _ Ho2 Hh') as (o0 & Ho0 & Hlk & Hhe);
            assert (Hk : key_of o2 r = key_of o0 r) by (unfold key_of; now rewrite Hlk); rewrite Hk in Hl;
